@@ -606,15 +606,48 @@ Definition create_service_impl (m : M) (c : conn) (serial : N) (oc u : uuid) (i 
            end
   end.
 
-(* SerialMap::insert chooses the broker-side serial of a call.  Like fresh cookies it is a model
-   INPUT read off the implementation's trace ([bserial]); the model only requires what the
-   properties need: it is not the serial of a live call (Panic 20 otherwise).  When the
-   implementation's choice is invisible (the callee never received the call) the model uses a
-   private serial outside the u32 range. *)
+(* SerialMap::insert (broker/src/serial_map.rs) chooses the broker-side serial of a call:
+
+     loop { let serial = self.next; self.next = self.next.wrapping_add(1);
+            if let Entry::Vacant(entry) = self.elems.entry(serial) { entry.insert(obj); break serial; } }
+
+   [sm_probe fuel occ n]: starting at [n] = next, probe n, n+1, ... (wrapping mod 2^32) until a
+   vacant serial is found; the result is (serial, new value of next) with next = serial + 1 mod
+   2^32.  The Rust loop does not terminate when all 2^32 serials are occupied; the model probes
+   at most |calls| + 1 serials, which finds a vacant one whenever fewer than 2^32 calls are
+   pending (SerialProofs.sm_choice_is_Some), and yields None (Panic 20) otherwise.  The text of
+   the Rust function is pinned by tools/rs2v_broker.py (gen/BrokerConsts.SERIAL_MAP_INSERT_PINNED). *)
+Definition sm_wrap_succ (n : N) : N := (n + 1) mod 4294967296.   (* u32::wrapping_add(1) *)
+Fixpoint sm_probe (fuel : nat) (occ : N -> bool) (n : N) : option (N * N) :=
+  match fuel with
+  | O => None
+  | S fuel' => if occ n then sm_probe fuel' occ (sm_wrap_succ n) else Some (n, sm_wrap_succ n)
+  end.
+(* number of iterations of the loop = how often [next] is advanced *)
+Fixpoint sm_probes (fuel : nat) (occ : N -> bool) (n : N) : N :=
+  match fuel with
+  | O => 0
+  | S fuel' => if occ n then 1 + sm_probes fuel' occ (sm_wrap_succ n) else 1
+  end.
+Definition sm_occ (s : state) (n : N) : bool := bool_decide (is_Some (calls s !! n)).
+Definition sm_choice (s : state) : option (N * N) := sm_probe (S (size (calls s))) (sm_occ s) (next s).
+Definition sm_advance (s : state) : N := sm_probes (S (size (calls s))) (sm_occ s) (next s).
+
+(* The allocator is part of the model.  [bserial] is the serial the implementation chose, read
+   off its trace when the callee received the call: it must be the model's choice (Panic 20
+   otherwise; the correspondence driver reports that as a divergence).  When the implementation's
+   choice is invisible (the callee never received the call: duplicate caller serial, dead
+   callee) [bserial] is None and the model's own choice is used; [next] advances in exactly the
+   same way in both cases, as it does in the Rust (insert happens before add_call and before
+   the send). *)
 Definition pick_serial (s : state) (bserial : option N) : option (N * N) :=
-  match bserial with
-  | Some b => if bool_decide (is_Some (calls s !! b)) then None else Some (b, next s)
-  | None => Some (4294967296 + next s, next s + 1)
+  match sm_choice s with
+  | None => None
+  | Some (b, nxt) =>
+      match bserial with
+      | Some b' => if bool_decide (b' = b) then Some (b, nxt) else None
+      | None => Some (b, nxt)
+      end
   end.
 
 Definition call_impl (m : M) (c : conn) (serial : N) (sc : uuid) (fn : N) (ver : option N)
